@@ -201,15 +201,25 @@ fn module_plain(e: &EnumSpec, cfg: Config, nested: bool) -> ModuleSrc {
     }
     src.push(PRELUDE);
     let mut e2 = e.clone();
-    let prefix = if cfg == Config::Renamed { "strum_x::" } else { "strum::" };
+    let mut prefix = if cfg == Config::Renamed { "strum_x::" } else { "strum::" };
     if cfg == Config::Renamed {
-        let path = if nested { "crate::reexp::inner" } else { "strum_x" };
+        // three spellings of the configured path; for the absolute one a local decoy of the same name
+        // sits in scope, so dropping the leading `::` resolves to the wrong item
+        let path = match (nested, e.hash64() % 3 == 0) {
+            (true, _) => "crate::reexp::inner",
+            (false, true) => {
+                src.push("mod strum_x {}");
+                prefix = "::strum_x::";
+                "::strum_x"
+            }
+            (false, false) => "strum_x",
+        };
         e2.groups.push(vec![EAttr::Crate(path.into())]);
         if let Some(o) = e2.disc_opts.as_mut() {
             for d in o.derives.iter_mut() {
-                *d = d.replace("strum::", "strum_x::");
+                *d = d.replace("strum::", prefix);
             }
-            if o.derives.iter().any(|d| d.starts_with("strum_x::")) {
+            if o.derives.iter().any(|d| d.contains("strum_x::")) {
                 o.passthrough.push(format!("strum(crate = \"{}\")", path));
             }
         }
